@@ -20,11 +20,13 @@ func init() {
 
 func runC01(c *core.Ctx) {
 	runFixtures(c, "valid")
-	c.Explain("Differential equivalence with package os over histories is not decidable statically. Decided, exhaustively over a finite space: (R01.1) the flag decision table of the key-value FS's OpenFile — for all 48 flag values (3 access modes x O_APPEND/O_CREATE/O_EXCL/O_TRUNC, constants of the loaded target) x {target missing with parent a directory / parent missing / parent a regular file; target a regular file; target a directory} = 240 cells the single feasible path through the function is followed by evaluating its flag tests as constants and its look-up tests from the situation, and the outcome (handle kind by control dependence of the wrapper constructed, create reached, truncate reached, or the sentinel of the returned error) must equal the reference table of os.OpenFile; a test the evaluator cannot classify makes the cell undecided (= failure); (R01.2) permission masking: every value that reaches the mode of a newly built record from a perm/mode parameter of Mkdir, MkdirAll, OpenFile crosses '& const' with const within ModePerm, Chmod's stored mode crosses '& const' within ModePerm|Setuid|Setgid|Sticky, and directory records are or-ed with ModeDir — invisible to the suite, which compares modes under a zero mask. (R01.3) every strings.HasPrefix relating two names in package keyvalue (Rename's 'moved into itself' guard) uses a prefix ending in '/' — os compares path elements, so Rename(\"lib\", \"lib64/lib\") must not be refused; (R01.4) every nil return of the key-value MkdirAll lies on a path that passed the success edge of the ancestor classifier (which answers a regular file anywhere in the chain, the leaf included, with ErrNotDir) or an IsDir()-true test of a look-up of the path — os.MkdirAll succeeds only if the path is a directory afterwards; R01.1 also evaluates, one level deep, the flag tests inside the handle's Truncate that OpenFile calls for O_TRUNC. Existence/kind preconditions of the other mutations are C03's. NOT claimed: results, data and trees equal to os over histories; Rename/Remove/RemoveAll semantics beyond C03; modification times.")
+	c.Explain("Differential equivalence with package os over histories is not decidable statically. Decided, exhaustively over a finite space: (R01.1) the flag decision table of the key-value FS's OpenFile — for all 48 flag values (3 access modes x O_APPEND/O_CREATE/O_EXCL/O_TRUNC, constants of the loaded target) x {target missing with parent a directory / parent missing / parent a regular file; target a regular file; target a directory} = 240 cells the single feasible path through the function is followed by evaluating its flag tests as constants and its look-up tests from the situation, and the outcome (handle kind by control dependence of the wrapper constructed, create reached, truncate reached, or the sentinel of the returned error) must equal the reference table of os.OpenFile; a test the evaluator cannot classify makes the cell undecided (= failure); (R01.2) permission masking: every value that reaches the mode of a newly built record from a perm/mode parameter of Mkdir, MkdirAll, OpenFile crosses '& const' with const within ModePerm, Chmod's stored mode crosses '& const' within ModePerm|Setuid|Setgid|Sticky, and directory records are or-ed with ModeDir — invisible to the suite, which compares modes under a zero mask. (R01.3) every strings.HasPrefix relating two names in package keyvalue (Rename's 'moved into itself' guard) uses a prefix ending in '/' — os compares path elements, so Rename(\"lib\", \"lib64/lib\") must not be refused; (R01.4) every nil return of the key-value MkdirAll lies on a path that passed the success edge of the ancestor classifier (which answers a regular file anywhere in the chain, the leaf included, with ErrNotDir) or an IsDir()-true test of a look-up of the path — os.MkdirAll succeeds only if the path is a directory afterwards; (R01.5) Rename stores the record it loaded under the new name and constructs no record of its own — a fresh record loses what the old one carried (the modification time set by Chtimes, which os.Rename keeps); (R01.6) on every path on which OpenFile returns a handle, the flag parameter was stored into the handle's record (field store or constructor argument) — a handle that loses O_APPEND writes at its offset instead of the end; R01.1 also evaluates, one level deep, the flag tests inside the handle's Truncate that OpenFile calls for O_TRUNC. Existence/kind preconditions of the other mutations are C03's. NOT claimed: results, data and trees equal to os over histories; Rename/Remove/RemoveAll semantics beyond C03; modification times.")
 	c.Assume("reference table of os.OpenFile semantics frozen in the checker (documented in DESIGN.md §3 C01)")
 	c.RuleDoc("R01.1", "OpenFile flag decision table, exhaustive over 240 cells")
 	c.RuleDoc("R01.2", "permission masking on create and chmod")
 	c.RuleDoc("R01.3", "name relations in the key-value FS are tested on path-element boundaries")
+	c.RuleDoc("R01.5", "Rename moves the record it loaded, it constructs none")
+	c.RuleDoc("R01.6", "the flag OpenFile was called with reaches the handle it returns on every path")
 	c.RuleDoc("R01.4", "MkdirAll reports success only after the path's ancestors and the path itself were classified")
 	for _, p := range c.Progs {
 		c.SetProg(p)
@@ -37,11 +39,15 @@ func runC01(c *core.Ctx) {
 		r01Perm(c, p, sh)
 		boundaryTests(c, p, "R01.3", "keyvalue")
 		r01MkdirAll(c, p, sh)
+		r01RenameCarriesRecord(c, p, sh)
+		r01FlagReachesHandle(c, p, sh, "R01.6")
 	}
 	c.Floor("R01.1", 240)
 	c.Floor("R01.2", 4)
 	c.Floor("R01.3", 1)
 	c.Floor("R01.4", 1)
+	c.Floor("R01.5", 1)
+	c.Floor("R01.6", 1)
 }
 
 type openSituation struct {
@@ -596,6 +602,10 @@ func r01Perm(c *core.Ctx, p *load.Program, sh *kvShape) {
 			}
 			c.Check(bits&^modePerm == 0, "R01.2", key, p.Pos(cl.Pos()), fmt.Sprintf("caller-controlled bits of a new record's mode are within %#o", modePerm),
 				fmt.Sprintf("%s: caller-controlled bits %#o of a new record's mode exceed ModePerm", fname(fn), bits))
+			// no permission bit comes from a constant: os creates with exactly the permissions asked for (perm 0 stays 0)
+			kb := constBits(p, fn, cl.Call.Args[2], 0, map[ssa.Value]bool{})
+			c.Check(kb&modePerm == 0, "R01.2", key+"|no-default-permissions", p.Pos(cl.Pos()), "no permission bit of a new record's mode comes from a constant",
+				fmt.Sprintf("%s: permission bits %#o of a new record's mode can come from a constant instead of the caller's perm: a file created with other permissions than asked for (e.g. perm 0 replaced by a default) differs from what os.OpenFile/os.Mkdir create", fname(fn), kb&modePerm))
 		})
 		// modeOverride stores (chmod)
 		ssax.Instrs(fn, func(ins ssa.Instruction) {
@@ -836,5 +846,136 @@ func r01MkdirAll(c *core.Ctx, p *load.Program, sh *kvShape) {
 		c.Bad("R01.4", key, p.Pos(badRet.Pos()), fmt.Sprintf("%s returns nil on a path that never passed the ancestor classifier's success edge nor an IsDir() test of the path: MkdirAll succeeds although the path (or an ancestor) may be a regular file — os.MkdirAll fails with ENOTDIR", fname(fn)))
 	default:
 		c.OK("R01.4", key, p.Pos(fn.Pos()), "every nil return follows the classifier's success (a regular file anywhere in the chain is answered with ErrNotDir)")
+	}
+}
+
+// constBits: the bits of v that may be set by a constant (as opposed to a caller-supplied parameter or a loaded mode).
+func constBits(p *load.Program, fn *ssa.Function, v ssa.Value, depth int, seen map[ssa.Value]bool) int64 {
+	if depth > 10 || seen[v] {
+		return 0
+	}
+	seen[v] = true
+	switch x := v.(type) {
+	case *ssa.Const:
+		k, _ := ssax.ConstInt(x)
+		return k
+	case *ssa.Parameter:
+		if fn.Object() != nil && !fn.Object().Exported() {
+			idx := paramIndex(fn, x)
+			bits := int64(0)
+			for _, caller := range p.SrcFuncs() {
+				ssax.Instrs(caller, func(ins ssa.Instruction) {
+					if cl, ok := ins.(*ssa.Call); ok && ssax.StaticCallee(cl) == fn && idx < len(cl.Call.Args) {
+						bits |= constBits(p, caller, cl.Call.Args[idx], depth+1, map[ssa.Value]bool{})
+					}
+				})
+			}
+			return bits
+		}
+		return 0
+	case *ssa.BinOp:
+		a := constBits(p, fn, x.X, depth+1, seen)
+		b := constBits(p, fn, x.Y, depth+1, seen)
+		switch x.Op {
+		case token.AND:
+			// (perm & K): K only masks; a constant on one side does not set bits of the other
+			if _, ok := ssax.ConstInt(x.Y); ok {
+				return a & b
+			}
+			if _, ok := ssax.ConstInt(x.X); ok {
+				return a & b
+			}
+			return a & b
+		case token.AND_NOT:
+			if k, ok := ssax.ConstInt(x.Y); ok {
+				return a &^ k
+			}
+			return a
+		default:
+			return a | b
+		}
+	case *ssa.Convert:
+		return constBits(p, fn, x.X, depth+1, seen)
+	case *ssa.ChangeType:
+		return constBits(p, fn, x.X, depth+1, seen)
+	case *ssa.Phi:
+		bits := int64(0)
+		for _, e := range x.Edges {
+			bits |= constBits(p, fn, e, depth+1, seen)
+		}
+		return bits
+	}
+	return 0
+}
+
+// r01RenameCarriesRecord (R01.5)
+func r01RenameCarriesRecord(c *core.Ctx, p *load.Program, sh *kvShape) {
+	fn := sh.methods["Rename"]
+	if fn == nil {
+		c.Hard("anchor: keyvalue.FS.Rename")
+		return
+	}
+	var ctor *ssa.Call
+	ssax.Instrs(fn, func(ins ssa.Instruction) {
+		if cl, ok := ins.(*ssa.Call); ok && sh.ctorFns[ssax.StaticCallee(cl)] {
+			ctor = cl
+		}
+	})
+	key := fname(fn) + "|moves-the-loaded-record"
+	if ctor != nil {
+		c.Bad("R01.5", key, p.Pos(ctor.Pos()), fmt.Sprintf("%s builds a new record with %s instead of moving the one it loaded: whatever the old record carried beyond path, kind and permissions — the modification time set by Chtimes — is replaced, where os.Rename keeps it", fname(fn), ssax.CallName(ctor)))
+	} else {
+		c.OK("R01.5", key, p.Pos(fn.Pos()), "no record is constructed in Rename; the loaded record is stored under the new name (R03.1 checks where)")
+	}
+}
+
+// r01FlagReachesHandle (R01.6)
+func r01FlagReachesHandle(c *core.Ctx, p *load.Program, sh *kvShape, rule string) {
+	fn := sh.methods["OpenFile"]
+	if fn == nil || len(fn.Params) < 3 {
+		return
+	}
+	flagP := ssa.Value(fn.Params[2])
+	key := fname(fn) + "|flag-reaches-handle"
+	var badRet *ssa.Return
+	complete := ssax.EnumPaths(fn, fn.Blocks[0], 0, nil, ssax.PathHooks{
+		Instr: func(s *ssax.PathState, ins ssa.Instruction) {
+			switch x := ins.(type) {
+			case *ssa.Store:
+				if fa, ok := x.Addr.(*ssa.FieldAddr); ok && ssax.FieldName(fa) == "flag" && s.Resolve(x.Val) == flagP {
+					s.Counts["flag"] = 1
+				}
+			case *ssa.Call:
+				if sh.ctorFns[ssax.StaticCallee(x)] {
+					for _, a := range x.Call.Args {
+						if s.Resolve(a) == flagP {
+							s.Counts["flag"] = 1
+						}
+					}
+				}
+			}
+		},
+		End: func(s *ssax.PathState, last ssa.Instruction) {
+			r, ok := last.(*ssa.Return)
+			if !ok || len(r.Results) < 2 {
+				return
+			}
+			h := s.Resolve(r.Results[0])
+			if ssax.IsNilConst(h) {
+				return
+			}
+			if s.Counts["flag"] == 0 && badRet == nil {
+				badRet = r
+			}
+		},
+		MaxPaths: 20000,
+	})
+	switch {
+	case !complete:
+		c.Unknown(rule, key, p.Pos(fn.Pos()), "path enumeration exceeded its cap")
+	case badRet != nil:
+		c.Bad(rule, key, p.Pos(badRet.Pos()), fmt.Sprintf("%s returns a handle at %s on a path on which the flag it was called with was neither stored into the handle's record nor passed to its constructor: the handle forgets O_APPEND (and the access mode kept in the record) — a later Write goes to the handle's offset instead of the end of the file", fname(fn), p.Pos(badRet.Pos())))
+	default:
+		c.OK(rule, key, p.Pos(fn.Pos()), "on every path that returns a handle the flag was stored into its record or passed to its constructor")
 	}
 }
